@@ -533,7 +533,9 @@ def judge(ctx, w, op, before, want_res, want_tree, got, after, x, p, off, rlen):
                                                         z3.And(_z(got.off) == _z(off), got.f.byte(_z(x)) == f.byte(_z(x))))),
                      lambda: {"sig": "read_data content at the witness"})
         else:
-            ctx.prop("read_content", got == f.bytes_conc()[off:off + rlen], lambda: {"sig": "read_data content"})
+            want = f.bytes_conc()[off:off + rlen]
+            ctx.prop("read_length", len(got) == len(want), lambda: {"sig": "read_data length"})
+            ctx.prop("read_content", got == want, lambda: {"sig": "read_data content at the witness"})
     else:
         ctx.prop("result_as_documented", (not isinstance(got, BaseException)) and got == want_res,
                  lambda: {"sig": f"{op}: expected {want_res!r}, got {got!r}"})
